@@ -161,6 +161,26 @@ def run(tier, replay=None):
     if p.returncode != 0:
         raise vlib.Infra("go build ./cmd/mro failed: " + p.stdout[-1500:])
     progs = refcorpus.base_programs()
+    # programs given as text: abstracted from what the real compiler makes of them
+    sd = os.path.join(wd, "sources")
+    os.makedirs(sd)
+    with open(os.path.join(wd, "s.ndjson"), "w") as f:
+        for name, text, vals in refcorpus.SOURCES:
+            os.makedirs(os.path.join(sd, name))
+            open(os.path.join(sd, name, "p.mro"), "w").write(text)
+            f.write(json.dumps({"Id": name, "Dir": os.path.join(sd, name), "Top": "p.mro"}) + "\n")
+    p = subprocess.run([os.path.join(vlib.BUILD, "bin", "vh"), "ast-batch", os.path.join(wd, "s.ndjson"), os.path.join(wd, "sabs.ndjson")],
+                       stdout=subprocess.PIPE, stderr=subprocess.PIPE, text=True, env=vlib.GOENV, timeout=600)
+    if p.returncode != 0:
+        raise vlib.Infra("ast-batch (sources): rc=%d %s" % (p.returncode, p.stderr[-1000:]))
+    sabs = {json.loads(l)["id"]: json.loads(l) for l in open(os.path.join(wd, "sabs.ndjson"))}
+    for name, text, vals in refcorpus.SOURCES:
+        a = sabs[name]
+        if not a["ok"]:
+            raise vlib.Infra("source program %s does not compile: %s" % (name, a.get("error")))
+        q = absconv.to_program(name, a["abs"], {k: mro.const(v) for k, v in vals.items()})
+        q["src"] = text
+        progs.append(q)
     byname = {q["name"]: q for q in progs}
     cases = []
 
@@ -169,7 +189,7 @@ def run(tier, replay=None):
                               stdout=subprocess.PIPE, stderr=subprocess.PIPE, text=True, timeout=120)
 
     for q in progs:
-        src = mro.render(q, stage_lang="comp", stage_src="s")
+        src = q.get("src") or mro.render(q, stage_lang="comp", stage_src="s")
         for label, flags, info in refcorpus.ops(q):
             d = os.path.join(wd, "%s_%d" % (q["name"], len(cases)))
             os.makedirs(d)
@@ -221,6 +241,10 @@ def run(tier, replay=None):
             kind = "does-not-compile"
             if "map call" in (a.get("error") or "") and "remove_input" in c["id"]:
                 kind = "does-not-compile-mapped-input-removed"
+            prm = (c["info"].get("input") or c["info"].get("output") or ("", "", ""))
+            if "* =" in c["src"] and "ArgumentNotSuppliedError" in (a.get("error") or "") and prm[1] and \
+                    ("'%s'" % prm[1] in a["error"] or "'%s'" % prm[2] in a["error"]):
+                kind = "does-not-compile-renamed-parameter-bound-by-wildcard"
             add(c, kind, (a.get("error") or "").replace("\n", " "), open(os.path.join(c["dir"], "p.mro")).read())
             continue
         try:
